@@ -7,15 +7,38 @@
   stage relies on are literals extracted from the source on every run
   (`Generated.lean`): a one-sided edit breaks `conventions_agree`.
 
-  partial: the full `pipeline` statement of DESIGN §6 C15 (one theorem from
-  corpus text to activations) is not assembled, because the three agents'
-  stage models carry their own copies of `splitOn`; what is proved is each
-  interface: (1) creation writes clean tokens, (2) keep/remove filters only
-  delete tokens and renaming yields non-empty tokens, (3) what the writer
-  writes the reader parses and the learner learns as the specification on the
-  written events, (4) counts of the written file are the counts of those
+  The interfaces (1)–(5): (1) creation writes clean tokens, (2) keep/remove
+  filters only delete tokens and renaming yields non-empty tokens, (3) what the
+  writer writes the reader parses and the learner learns as the specification
+  on the written events, (4) counts of the written file are the counts of those
   events, (5) activations of the learned weights are the sums the learner used.
-  The end-to-end statement is sampled by harness/run_C15.py on the real code.
+
+  Assembled (second half of this file, lemmas in PyndlProofs/Pipeline.lean):
+  the stage models' private copies of `split` / `join` are proved to be the
+  same functions (`split_join_shared`), the filter is transported to the token
+  level (`Pipeline.filterEvent`, `filter_commutes_with_render`), and ONE
+  statement runs corpus lines → `create_event_file` → event file →
+  `filter_event_file` → event file → `events_from_file` → `dict_ndl`:
+  `pipeline` (and without the creator, for arbitrary well-formed events,
+  `writer_filter_reader_learner`; on lists of lines `writer_filter_lines`).
+  The result is `rwLearn` on the created events filtered on the token level
+  (an empty outcome list read back as the outcome `""`).
+
+  partial: still NOT part of the one statement
+  * the activation stage (C12) — (5) stays a separate interface theorem, and
+    the counting stage (4) is a side branch, not composed after the filter;
+  * the other learners (`ndl.ndl` threading/OpenMP, `wh`): `pipeline` ends in
+    `dict_ndl`; their equality with the same specification is C01/C02/C08;
+  * the byte level: gzip and UTF-8 are identity (trusted base of C07), and the
+    text `create_event_file` writes is taken to be `renderFile false` of the
+    created events (header and line format are the extracted literals,
+    `create_writes_text_format`; the creation model itself stops at token
+    lists); `filter_event_file`'s line iteration is `Pipeline.readLines`
+    (universal newlines, `strip('\n')`) and its output is each returned line
+    followed by `\n`;
+  * `Pool.imap`'s ordering guarantee and `n_jobs` independence remain trusted
+    (C10); `str.lower` / `str.strip` tables are parameters (C09).
+  The end-to-end statement is also sampled by harness/run_C15.py on the real code.
 -/
 import PyndlProps.C07
 import PyndlProps.C11
@@ -23,6 +46,7 @@ import PyndlProofs.Create
 import PyndlProofs.Filter
 import PyndlProofs.Dict
 import PyndlProofs.Activation
+import PyndlProofs.Pipeline
 import PyndlModel.Generated
 
 namespace Pyndl.C15
@@ -105,5 +129,214 @@ theorem learner_activation_consistent {R : Type} [CommRing R] {ι κ : Type} [De
           (if o ∈ e.outcomes then β₁ * (lam - sumOver (W o) e.cues)
            else β₂ * (0 - sumOver (W o) e.cues))) :=
   Pyndl.step_delta α β₁ β₂ lam W e o c
+
+/-! ## the assembled pipeline (lemmas: PyndlProofs/Pipeline.lean) -/
+
+open Pyndl.Pipeline in
+/-- **one `split`, one `join`.**  The filter model's private copies of
+    `str.split(sep)` / `sep.join(…)`, instantiated at `Char`, ARE the functions
+    of the text-format model — so what one stage joins the next one splits. -/
+theorem split_join_shared :
+    Filter.splitOn (χ := Char) = Text.splitOn ∧ Filter.joinWith (χ := Char) = Text.joinWith :=
+  ⟨filter_splitOn_eq_fun, filter_joinWith_eq_fun⟩
+
+/-- the domain of the composition is the domain of the round trip C07. -/
+theorem wfEvent_iff (e : TEvent) : C07.WfEvent e ↔ Pipeline.EventWf e := Iff.rfl
+
+/-- **writer → filter, one line**: a data line written for an event with
+    separator-free tokens has exactly two columns — `job` does not raise. -/
+theorem written_line_accepted (e : TEvent) (h : C07.WfEvent e) :
+    Filter.WellFormed Filter.colSep (renderEvent false e) :=
+  Pipeline.wellFormed_renderEvent e h.ok
+
+/-- **the filter commutes with the writer.**  For an event with ≥ 1 cue and
+    well-formed tokens, `job` on the written line returns the written line of
+    `Pipeline.filterEvent rc ro e` (rules applied to the token lists; dropped
+    iff no cue is left; an event left without outcomes is kept).
+
+    `hro : RuleNilSafe ro` — the outcome rule must not turn the empty token into
+    a token: an event without outcomes is written with an empty outcome field,
+    which `"".split("_") = [""]` presents to the rule as the token `""`.
+    keep / remove / all are always safe (`[""]` and `[]` are both written as
+    the empty field); an `outcome_map` is safe iff it has no key `""` or maps
+    it to `""` (`Pipeline.ruleNilSafe_of_keys`).  The cue rule needs nothing:
+    with ≥ 1 cue the token `""` does not occur. -/
+theorem filter_commutes_with_render (rc ro : Filter.Rule Char) (hro : Pipeline.RuleNilSafe ro)
+    (e : TEvent) (h : C07.WfEvent e) :
+    Filter.applyRules Filter.colSep Filter.tokSep rc ro (renderEvent false e)
+      = (Pipeline.filterEvent rc ro e).map (renderEvent false) :=
+  Pipeline.applyRules_renderEvent rc ro hro e h
+
+/-- the hypothesis `RuleNilSafe` is needed: the rename `{"": "x"}` on the
+    outcome side invents the outcome `x` for an event without outcomes. -/
+example :
+    let e : TEvent := ⟨[['a']], []⟩
+    let ro : Filter.Rule Char := .map [([], ['x'])]
+    Filter.applyRules '\t' '_' .all ro (renderEvent false e) = some "a\tx".toList ∧
+    (Pipeline.filterEvent .all ro e).map (renderEvent false) = some "a\t".toList := by
+  decide +kernel
+
+/-- **writer → filter on the list of lines.**  `filter_event_file` with
+    accepted arguments (`hc`, `ho`: the constructor selected `rc`, `ro`), any
+    chunk size ≥ 1, on the lines `header :: es.map render` returns
+    `header :: (es.filterMap filterEvent).map render`. -/
+theorem writer_filter_lines (ca oa : Filter.SideArgs Char) (rc ro : Filter.Rule Char)
+    (hc : Filter.selectRule ca = .ok rc) (ho : Filter.selectRule oa = .ok ro)
+    (hro : Pipeline.RuleNilSafe ro) (chunk : Nat) (hn : 1 ≤ chunk)
+    (es : List TEvent) (h : ∀ e ∈ es, C07.WfEvent e) :
+    Filter.filterEventFile Filter.colSep Filter.tokSep ca oa chunk
+        (renderHeader false :: es.map (renderEvent false))
+      = .ok (renderHeader false :: (es.filterMap (Pipeline.filterEvent rc ro)).map (renderEvent false)) :=
+  Pipeline.filterEventFile_renderLines ca oa rc ro hc ho hro chunk hn es h
+
+/-- the line-by-line view of a written file is the list of written lines:
+    nothing is lost in the line terminators (tokens contain neither LF nor CR). -/
+theorem written_file_lines (es : List TEvent) (h : ∀ e ∈ es, C07.WfEvent e) :
+    Pipeline.readLines (renderFile false es) = renderHeader false :: es.map (renderEvent false) :=
+  Pipeline.readLines_renderFile false es (fun e he => (h e he).ok)
+
+/-- **writer → filter → reader → learner (files).**  For every list `es` of
+    events with ≥ 1 cue and well-formed tokens (`h`), accepted filter arguments
+    (`hc`, `ho`), every chunk size ≥ 1 (`hn`; `n_jobs` does not occur: C10):
+
+    * `filter_event_file` on the file `events_to_file(es)` wrote, read line by
+      line (`readLines`), succeeds and returns the lines `out` — the header and
+      the written lines of `es.filterMap (filterEvent rc ro)`;
+    * `events_from_file` on the file made of these lines (`unlines out`: each
+      followed by `\n`) parses exactly those events, an empty outcome list
+      coming back as the outcome `""` (`normalise`);
+    * `dict_ndl` on the parsed events returns the Rescorla–Wagner weights
+      `rwLearn` of them (`hp`: the events as the duplicate policy
+      `remove_duplicates` accepts/rewrites them — `dictNdl_eq_spec`).
+
+    Rule hypotheses: `hrc`, `hro` — a `cue_map` / `outcome_map` only has
+    values that are `""` or well-formed tokens (otherwise the filtered file
+    would contain a token with `_`/TAB/LF/CR in it and would not parse back to
+    the filtered token lists); `hnil` — see `filter_commutes_with_render`.
+    All three hold for keep / remove / all (`Pipeline.ruleOk_of_noMap`). -/
+theorem writer_filter_reader_learner {R : Type} [CommRing R] (p : DupPolicy)
+    (α : Str → R) (β₁ β₂ lam : R)
+    (ca oa : Filter.SideArgs Char) (rc ro : Filter.Rule Char)
+    (hc : Filter.selectRule ca = .ok rc) (ho : Filter.selectRule oa = .ok ro)
+    (hrc : Pipeline.RuleImgWf rc) (hro : Pipeline.RuleImgWf ro) (hnil : Pipeline.RuleNilSafe ro)
+    (chunk : Nat) (hn : 1 ≤ chunk)
+    (es es' : List TEvent) (h : ∀ e ∈ es, C07.WfEvent e)
+    (hp : applyPolicyAll p ((es.filterMap (Pipeline.filterEvent rc ro)).map normalise) = some es') :
+    ∃ out parsed W,
+      Filter.filterEventFile Filter.colSep Filter.tokSep ca oa chunk
+          (Pipeline.readLines (renderFile false es)) = .ok out ∧
+      out = renderHeader false :: (es.filterMap (Pipeline.filterEvent rc ro)).map (renderEvent false) ∧
+      parseFile 0 1 (unlines out) = some parsed ∧
+      parsed = (es.filterMap (Pipeline.filterEvent rc ro)).map normalise ∧
+      dictNdl p α β₁ β₂ lam [] parsed = some W ∧
+      wdAbs W = rwLearn α β₁ β₂ lam (wdAbs ([] : WDict Str Str R)) es' :=
+  Pipeline.writer_filter_reader_learner p α β₁ β₂ lam ca oa rc ro hc ho hrc hro hnil chunk hn es es' h hp
+
+/-- the same for filters without a rename: no hypothesis on the rules left. -/
+theorem writer_select_reader_learner {R : Type} [CommRing R] (p : DupPolicy)
+    (α : Str → R) (β₁ β₂ lam : R)
+    (ca oa : Filter.SideArgs Char) (hca : Filter.NoMap ca) (hoa : Filter.NoMap oa)
+    (rc ro : Filter.Rule Char)
+    (hc : Filter.selectRule ca = .ok rc) (ho : Filter.selectRule oa = .ok ro)
+    (chunk : Nat) (hn : 1 ≤ chunk)
+    (es es' : List TEvent) (h : ∀ e ∈ es, C07.WfEvent e)
+    (hp : applyPolicyAll p ((es.filterMap (Pipeline.filterEvent rc ro)).map normalise) = some es') :
+    ∃ out parsed W,
+      Filter.filterEventFile Filter.colSep Filter.tokSep ca oa chunk
+          (Pipeline.readLines (renderFile false es)) = .ok out ∧
+      parseFile 0 1 (unlines out) = some parsed ∧
+      parsed = (es.filterMap (Pipeline.filterEvent rc ro)).map normalise ∧
+      dictNdl p α β₁ β₂ lam [] parsed = some W ∧
+      wdAbs W = rwLearn α β₁ β₂ lam (wdAbs ([] : WDict Str Str R)) es' := by
+  obtain ⟨out, parsed, W, h1, _, h3, h4, h5, h6⟩ :=
+    writer_filter_reader_learner p α β₁ β₂ lam ca oa rc ro hc ho
+      (Pipeline.ruleOk_of_noMap ca hca rc hc).1 (Pipeline.ruleOk_of_noMap oa hoa ro ho).1
+      (Pipeline.ruleOk_of_noMap oa hoa ro ho).2 chunk hn es es' h hp
+  exact ⟨out, parsed, W, h1, h3, h4, h5, h6⟩
+
+/-- the text `create_event_file` writes is the text format of the writer: its
+    header literal is the writer's header line plus `\n`, its line format is
+    `cues TAB outcomes \n` (the `{}` being the `_`-joined token lists,
+    `Pipeline.toTEvent`). -/
+theorem create_writes_text_format :
+    Generated.createHeader.toList = renderHeader false ++ [LF] ∧
+    Generated.createLineFormat.toList = "{}".toList ++ TAB :: "{}".toList ++ [LF] := by
+  decide
+
+/-- **creation → text format.**  Every event `create_event_file` writes has at
+    least one cue and well-formed tokens, i.e. is in the domain of C07 and of
+    the composition.  `hn`: the n-gram size is 1, 2 or 3 (`bigrams_to_word`,
+    `trigrams_to_word` are the only ones the real function offers; for a phrase
+    shorter than `n` `ngrams_to_word` writes a line with an EMPTY cue field,
+    see `Pipeline.processWords_cues_ne`); `hraw`: no raw corpus line contains LF
+    or CR (the corpus is iterated line by line); `hlower`: with
+    `lower_case=True` no entry of the lower-casing table contains LF or CR
+    (C09 `tokens_no_newline`, `tokens_no_cr`, `tokens_clean`). -/
+theorem created_events_wf (t : Create.Tables) (o : Create.Options)
+    (hn : ∀ n, o.cue = .ngrams n → 1 ≤ n ∧ n ≤ 3) (rawLines : List (List Char))
+    (hraw : ∀ raw ∈ rawLines, '\n' ∉ raw ∧ '\r' ∉ raw)
+    (hlower : o.lowerCase = true → ∀ p ∈ t.lower, '\n' ∉ p.2 ∧ '\r' ∉ p.2) :
+    ∀ ev ∈ Create.createEvents t o rawLines, C07.WfEvent (Pipeline.toTEvent ev) :=
+  Pipeline.createEvents_eventWf t o hn rawLines hraw hlower
+
+/-- the bound on the n-gram size is needed: with 4-grams the one-letter
+    context `a` (phrase `#a#`) is written with an empty cue field. -/
+example : Create.createEvents ⟨[' '], []⟩ ⟨.all, .line, .line, .ngrams 4, false, false⟩ ["a".toList]
+    = [⟨[], ["a".toList]⟩] := by decide +kernel
+
+/-- **pipeline.**  corpus lines → `create_event_file` → event file →
+    `filter_event_file` → event file → `events_from_file` → `dict_ndl`
+    = `rwLearn` on the created events, filtered on the token level and
+    normalised.  Hypotheses: those of `created_events_wf` (creation side) and
+    of `writer_filter_reader_learner` (filter side, learner side). -/
+theorem pipeline {R : Type} [CommRing R] (p : DupPolicy) (α : Str → R) (β₁ β₂ lam : R)
+    (t : Create.Tables) (o : Create.Options)
+    (hng : ∀ n, o.cue = .ngrams n → 1 ≤ n ∧ n ≤ 3) (rawLines : List (List Char))
+    (hraw : ∀ raw ∈ rawLines, '\n' ∉ raw ∧ '\r' ∉ raw)
+    (hlower : o.lowerCase = true → ∀ p ∈ t.lower, '\n' ∉ p.2 ∧ '\r' ∉ p.2)
+    (ca oa : Filter.SideArgs Char) (rc ro : Filter.Rule Char)
+    (hc : Filter.selectRule ca = .ok rc) (ho : Filter.selectRule oa = .ok ro)
+    (hrc : Pipeline.RuleImgWf rc) (hro : Pipeline.RuleImgWf ro) (hnil : Pipeline.RuleNilSafe ro)
+    (chunk : Nat) (hn : 1 ≤ chunk) (es' : List TEvent)
+    (hp : applyPolicyAll p
+      ((((Create.createEvents t o rawLines).map Pipeline.toTEvent).filterMap
+          (Pipeline.filterEvent rc ro)).map normalise) = some es') :
+    ∃ out parsed W,
+      Filter.filterEventFile Filter.colSep Filter.tokSep ca oa chunk
+        (Pipeline.readLines (renderFile false ((Create.createEvents t o rawLines).map Pipeline.toTEvent)))
+          = .ok out ∧
+      parseFile 0 1 (unlines out) = some parsed ∧
+      parsed = (((Create.createEvents t o rawLines).map Pipeline.toTEvent).filterMap
+                  (Pipeline.filterEvent rc ro)).map normalise ∧
+      dictNdl p α β₁ β₂ lam [] parsed = some W ∧
+      wdAbs W = rwLearn α β₁ β₂ lam (wdAbs ([] : WDict Str Str R)) es' :=
+  Pipeline.pipeline p α β₁ β₂ lam t o hng rawLines hraw hlower ca oa rc ro hc ho hrc hro hnil chunk hn es' hp
+
+/-! Non-vacuity: a two-line corpus, bigram cues over whole lines, keep the cues
+    `#a`/`a#`/`b#` and remove the outcome `b`: the first event (`a`) is kept,
+    the second (`b`) keeps the cue `b#` and loses its outcome (read back as `""`);
+    every hypothesis of `pipeline` holds for these values. -/
+example :
+    let t : Create.Tables := ⟨[' '], []⟩
+    let o : Create.Options := ⟨.all, .line, .line, .ngrams 2, false, false⟩
+    let raw : List (List Char) := ["a".toList, "b".toList]
+    let ca : Filter.SideArgs Char := ⟨some ["#a".toList, "a#".toList, "b#".toList], none, none⟩
+    let oa : Filter.SideArgs Char := ⟨none, some ["b".toList], none⟩
+    let created := (Create.createEvents t o raw).map Pipeline.toTEvent
+    created = [⟨["#a".toList, "a#".toList], ["a".toList]⟩, ⟨["#b".toList, "b#".toList], ["b".toList]⟩] ∧
+    (∀ r ∈ raw, '\n' ∉ r ∧ '\r' ∉ r) ∧
+    Filter.filterEventFile '\t' '_' ca oa 2 (Pipeline.readLines (renderFile false created))
+      = .ok ["cues\toutcomes".toList, "#a_a#\ta".toList, "b#\t".toList] ∧
+    parseFile 0 1 (unlines ["cues\toutcomes".toList, "#a_a#\ta".toList, "b#\t".toList])
+      = some [⟨["#a".toList, "a#".toList], ["a".toList]⟩, ⟨["b#".toList], [[]]⟩] := by
+  decide +kernel
+
+/-- … the rules the constructor selects for these arguments; they contain no
+    rename, so `RuleImgWf` / `RuleNilSafe` hold (`Pipeline.ruleOk_of_noMap`). -/
+example :
+    Filter.selectRule (⟨some ["#a".toList, "a#".toList, "b#".toList], none, none⟩ : Filter.SideArgs Char)
+      = .ok (.keep ["#a".toList, "a#".toList, "b#".toList]) ∧
+    Filter.selectRule (⟨none, some ["b".toList], none⟩ : Filter.SideArgs Char)
+      = .ok (.remove ["b".toList]) := ⟨rfl, rfl⟩
 
 end Pyndl.C15
